@@ -131,14 +131,14 @@ func c02Units(tier string, seed int64) []Unit {
 			c.R.States++
 			c.R.Transitions++
 			c.Outcome(ln, true)
-			if f[2] != "failed=true" {
+			if f[2] != "failed=true" || f[3] == "class=only-generated" || f[3] == "class=ok" {
 				c.Violate(Violation{Sig: "C02 lost-falsification kind=panic(nil) ctx=" + f[1] + " godebug=panicnil=1",
 					Detail: "every test case executes panic(nil) in context " + f[1] + ", the process runs with GODEBUG=panicnil=1: Check did not fail the test (" + f[3] + ")",
 					Replay: map[string]any{"engine": "subprocess", "godebug": "panicnil=1", "ctx": f[1]}})
 			}
 		}
-		if n != 6 {
-			c.R.HarnessErr = "panicnilprobe printed " + fmt.Sprint(n) + " results, want 6: " + trunc(string(out), 400)
+		if n != 8 {
+			c.R.HarnessErr = "panicnilprobe printed " + fmt.Sprint(n) + " results, want 8: " + trunc(string(out), 400)
 		}
 	}})
 	return units
@@ -166,6 +166,24 @@ func PanicNilProbeMain() {
 	env := NewEnv(nil, prog.Base)
 	log := RunCheck(prog, env, Config{Checks: 3, Seed: 5, ShrinkMS: 3, NoFailFile: true, Name: "TestPanicNil"})
 	fmt.Printf("probe %s failed=%v class=%s\n", "cleanup", log.TB.IsFail, log.Verdict().Class)
+	// a Cleanup function that executes panic(nil) after a newer one has skipped
+	prog2 := &LazyProgram{Name: "cleanup-panics-nil-after-a-skip", Base: func(string, string) Beh { return BPass }, Body: func(t *rapid.T, e *Env) {
+		x := rapid.Uint64().Draw(t, "x")
+		e.cur.Draws = fmt.Sprint(x)
+		e.cur.Signalled = append(e.cur.Signalled, BPanicNil)
+		t.Cleanup(func() { var nothing any; panic(nothing) })
+		t.Cleanup(func() { t.Skip("the newer cleanup skips") })
+	}}
+	env2 := NewEnv(nil, prog2.Base)
+	log2 := RunCheck(prog2, env2, Config{Checks: 3, Seed: 5, ShrinkMS: 3, NoFailFile: true, Name: "TestPanicNil"})
+	fmt.Printf("probe %s failed=%v class=%s\n", "cleanup-after-skip", log2.TB.IsFail, log2.Verdict().Class)
+	// Example: a predicate that executes panic(nil) is not a value
+	exOK := func() (ok bool) {
+		defer func() { ok = recover() != nil || ok }()
+		v := rapid.IntRange(5, 10).Filter(func(int) bool { var nothing any; panic(nothing) }).Example(1)
+		return v >= 5 && v <= 10
+	}()
+	fmt.Printf("probe %s failed=%v class=%s\n", "example-filter", exOK, "n/a")
 }
 
 func init() {
